@@ -31,6 +31,8 @@ def run(ctx: Ctx, chk) -> None:
     chk.run_rule(stop1, ctx)
     chk.run_rule(cadence1, ctx)
     chk.run_rule(tasks1, ctx)
+    chk.run_rule(save_total, ctx)
+    chk.run_rule(disc1, ctx)
 
 
 def _calls(g: CFG, pred):
@@ -274,6 +276,86 @@ def stop1(ctx: Ctx, chk) -> None:
             chk.ok(rule, key, f"{tname}.cancel() is installed as self._cancel_save and awaited by stop()", ctx.loc(f, c))
         else:
             chk.refute(rule, key, "the task created here has no cancel site reachable from Persistence.stop: it outlives the gateway context", ctx.loc(f, c))
+
+
+def save_total(ctx: Ctx, chk) -> None:
+    rule = "SAVE-TOTAL"
+    chk.rule(rule, "Persistence.save writes on every call: every normal path through save() passes through the write of the serialised registry - no early return, no 'already saving' / 'unchanged' short cut (the final save of stop() must not be skippable by whatever state an interrupted periodic save left behind)")
+    pers = ctx.cls(PERS)
+    save = pers.find_method("save")
+    if save is None:
+        raise AnalysisError("anchor vanished: Persistence.save")
+    fi = ctx.inl(save)
+    g = CFG(fi.node)
+    writes = [n for n in g.nodes if n.ast is not None and n.kind in ("stmt", "with-enter") and any(isinstance(x, ast.Call) and isinstance(x.func, ast.Attribute) and x.func.attr in ("write", "writelines", "dump") and (ctx.prog.type_of(save.module, x.func.value) or "").find("aiofiles") >= 0 for p_ in n.parts() for x in ast.walk(p_))]
+    chk.instance(rule)
+    key = f"{save.fq}::always-writes"
+    if not writes:
+        raise AnalysisError("SAVE-TOTAL: the file write of Persistence.save was not found")
+    p = g.reach_avoiding([g.entry], lambda x: x is g.exit, lambda x: x in writes, labels_skip=("exc",), from_succ=False)
+    if p is None:
+        chk.ok(rule, key, "every normal path through save() writes the file", ctx.loc(save, writes[0].ast))
+    else:
+        chk.refute(rule, key, f"save() can return without writing ({' -> '.join(g.path_text(p)[1:5])}): the final save of stop() is skipped whenever that condition holds - e.g. a flag left set by a periodic save that was cancelled inside a file operation", ctx.loc(save, p[-2].ast if len(p) > 1 and p[-2].ast is not None else save.node))
+
+
+def disc1(ctx: Ctx, chk) -> None:
+    rule = "DISC-1"
+    chk.rule(rule, "leaving the context disconnects the stream that entering it opened: disconnect() closes self.writer whenever it is set, and self.writer / self.reader are assigned only by __init__ and connect() (or cleared by disconnect() after the close) - no other code path can make disconnect() a no-op while the stream is still open")
+    st = ctx.cls("aiomysensors.transport.StreamTransport")
+    classes = [st] + list(ctx.prog.subclasses(st))
+    n = 0
+    for c in classes:
+        for fl in c.methods.values():
+            for f in fl:
+                g = None
+                for node in ctx.own_nodes(f):
+                    if not isinstance(node, (ast.Assign, ast.AnnAssign, ast.AugAssign)):
+                        continue
+                    targets = node.targets if isinstance(node, ast.Assign) else [node.target]
+                    flat = [x for t in targets for x in (t.elts if isinstance(t, (ast.Tuple, ast.List)) else [t])]
+                    for t in flat:
+                        if not (isinstance(t, ast.Attribute) and isinstance(t.value, ast.Name) and t.value.id == "self" and t.attr in ("writer", "reader")):
+                            continue
+                        n += 1
+                        chk.instance(rule)
+                        k = fkey(f, node) + f"::{t.attr}"
+                        if f.name in ("__init__", "connect"):
+                            chk.ok(rule, k, f"self.{t.attr} assigned by {f.name}", ctx.loc(f, node), sample=n <= 2)
+                            continue
+                        if f.name == "disconnect":
+                            g = g or CFG(f.node)
+                            closes = _calls(g, lambda c_: isinstance(c_.func, ast.Attribute) and c_.func.attr == "close")
+                            sn = g.nodes_of(node)
+                            if closes and all(any(g.dominates(cl, s_) for cl in closes) for s_ in sn):
+                                chk.ok(rule, k, "cleared only after the stream was closed", ctx.loc(f, node))
+                                continue
+                            # cleared first, but the stream is kept in a local that is closed on every path on which it is set
+                            aliases = set()
+                            for a_ in ctx.own_nodes(f):
+                                if isinstance(a_, ast.Assign) and len(a_.targets) == 1:
+                                    tg, vl = a_.targets[0], a_.value
+                                    pairs = list(zip(tg.elts, vl.elts)) if isinstance(tg, ast.Tuple) and isinstance(vl, ast.Tuple) and len(tg.elts) == len(vl.elts) else [(tg, vl)]
+                                    for x_, y_ in pairs:
+                                        if isinstance(x_, ast.Name) and norm(y_) == "self.writer" and a_.lineno <= node.lineno:
+                                            aliases.add(x_.id)
+                            acl = [cl for cl in closes if any(isinstance(x, ast.Call) and isinstance(x.func, ast.Attribute) and x.func.attr == "close" and isinstance(x.func.value, ast.Name) and x.func.value.id in aliases for p_ in cl.parts() for x in ast.walk(p_))]
+
+                            def truth(tn, aliases=aliases):
+                                te = tn.ast
+                                if isinstance(te, ast.Compare) and len(te.ops) == 1 and isinstance(te.left, ast.Name) and te.left.id in aliases and norm(te.comparators[0]) == "None":
+                                    return isinstance(te.ops[0], (ast.IsNot, ast.NotEq))
+                                if isinstance(te, ast.Name) and te.id in aliases:
+                                    return True
+                                if isinstance(te, ast.UnaryOp) and isinstance(te.op, ast.Not) and isinstance(te.operand, ast.Name) and te.operand.id in aliases:
+                                    return False
+                                return None
+
+                            if acl and g.reach_avoiding(sn, lambda x: x is g.exit, lambda x: x in acl, labels_skip=("exc",), truth=truth) is None:
+                                chk.ok(rule, k, "the stream is kept in a local and closed on every path on which it was set", ctx.loc(f, node))
+                                continue
+                        chk.refute(rule, k, f"{f.qualname} assigns self.{t.attr} (`{norm(node)[:60]}`): after this, disconnect() finds no writer and returns without closing the stream that connect() opened - leaving the gateway context leaves the socket / serial port open", ctx.loc(f, node))
+    chk.floor(rule, "assignments of the stream attributes", n, 2)
 
 
 def cadence1(ctx: Ctx, chk) -> None:
